@@ -350,6 +350,46 @@ def wake_writer(w, error=None) -> bool:
     return w.c10_wake(error)
 
 
+DISCOVERY = dict(probes=0, found=0)      # health of the structural attempt discovery (see attempt_task)
+
+
+def task_references(task, obj, depth=24) -> bool:
+    """Does the coroutine stack of `task` (its coroutine and the chain of awaited coroutines) hold `obj` in a frame's
+    locals?  Structural: independent of task names, attribute names and function names of the code under test."""
+    try:
+        coro = task.get_coro()
+    except Exception:
+        return False
+    for _ in range(depth):
+        if coro is None:
+            return False
+        frame = getattr(coro, 'cr_frame', None) or getattr(coro, 'gi_frame', None) or getattr(coro, 'ag_frame', None)
+        if frame is not None:
+            try:
+                if any(v is obj for v in frame.f_locals.values()):
+                    return True
+            except Exception:
+                pass
+        coro = (getattr(coro, 'cr_await', None) or getattr(coro, 'gi_yieldfrom', None)
+                or getattr(coro, 'ag_await', None))
+    return False
+
+
+def attempt_task(loop, before, conn, exclude=()):
+    """The task the library started for an attempt, found without knowing its name: a task that did not exist in the
+    snapshot `before` the stimulus and whose coroutine stack references the connection; if no stack can be attributed,
+    the only new task.  None when it cannot be determined (the attempt is then 'unknown' and only the observable half
+    of RegistryExact is judged)."""
+    new = [t for t in asyncio.all_tasks(loop)
+           if t not in before and not t.done() and not any(t is x for x in exclude)
+           and not t.get_name().startswith('sim-accept-')]        # (harness.simnet's own accept tasks)
+    if conn is not None:
+        ref = [t for t in new if task_references(t, conn)]
+        if ref:
+            return ref[0]
+    return new[0] if len(new) == 1 else None
+
+
 class ModelConn:
     def __init__(self, c, kind, obf):
         self.c, self.kind, self.obf = c, kind, obf
@@ -608,14 +648,13 @@ class World:
         await peer.listen()
         sconn = self.network.server_connection
         if mc.via == 'ctp' and sconn.state.name == 'CONNECTED' and self.server.sessions:
-            before = {t for t in asyncio.all_tasks(self.loop) if t.get_name().startswith('connect-to-peer-')}
+            before = set(asyncio.all_tasks(self.loop))
             self.server.sessions[-1].send(M.ConnectToPeer.Response(
                 mc.user, mc.typ, mc.ip, 0 if mc.obf else mc.port, 4000 + mc.c, False,
                 obfuscated_port_amount=1 if mc.obf else 0, obfuscated_port=port if mc.obf else 0))
             await vloop.settle(self.loop)
-            new = [t for t in asyncio.all_tasks(self.loop)
-                   if t.get_name().startswith('connect-to-peer-') and t not in before]
-            mc.task = new[0] if new else None
+            self.adopt_new(mc)
+            mc.task = attempt_task(self.loop, before, mc.conn)
         else:
             mc.via = 'api'
 
@@ -629,6 +668,11 @@ class World:
                     self.rec.stim('create_peer_connection raised', exc=type(exc).__name__)
             mc.task = asyncio.create_task(req())
             await vloop.settle(self.loop)
+            self.adopt_new(mc)
+            if mc.conn is not None and not mc.task.done():
+                # health probe of the structural discovery on an attempt the driver knows: its own task
+                DISCOVERY['probes'] += 1
+                DISCOVERY['found'] += int(task_references(mc.task, mc.conn))
         self.adopt_new(mc)
         if mc.rid:
             task = mc.task
@@ -945,16 +989,18 @@ async def _scn_network_disconnect(w: World, hold: bool):
         await simserver.ScriptedPeer(w.net, f'p{port}', port).listen()
     rec.stim('api connect pending, ctp connect pending, one accepted, one initialised')
     t1 = asyncio.create_task(w.network.create_peer_connection('p7200', 'P', ip='10.0.2.1', port=7200))
-    before = {t for t in asyncio.all_tasks(loop) if t.get_name().startswith('connect-to-peer-')}
+    await asyncio.sleep(0)
+    before = set(asyncio.all_tasks(loop))
     w.server.sessions[-1].send(M.ConnectToPeer.Response('p7210', 'P', '10.0.2.2', 7210, 77, False,
                                                         obfuscated_port_amount=0, obfuscated_port=0))
     await vloop.settle(loop)
-    ctp = [t for t in asyncio.all_tasks(loop) if t.get_name().startswith('connect-to-peer-') and t not in before]
-    for c in w.known_peer_connections():        # both attempts are known: the API caller's task, the connect-to-peer task
+    for c in w.known_peer_connections():        # both attempts are known: the API caller's task, the connect-back task
         if c.port == 7200:
             rec.att_fn[rec.idx(c)] = lambda: 'gone' if t1.done() else 'running'
-        elif c.port == 7210 and ctp:
-            rec.att_fn[rec.idx(c)] = lambda: 'gone' if ctp[0].done() else 'running'
+        elif c.port == 7210:
+            ctp = attempt_task(loop, before, c, exclude=(t1,))
+            if ctp is not None:
+                rec.att_fn[rec.idx(c)] = lambda t=ctp: 'gone' if t.done() else 'running'
     rec.quiescent()
     ep1 = await w.net.dial(LISTEN)
     ep2 = await w.net.dial(LISTEN_OBF)
@@ -997,7 +1043,7 @@ async def _scn_disconnect_while_connecting(w: World, via: str):
     peer = simserver.ScriptedPeer(w.net, 'slow', port)
     await peer.listen()
     rec.stim(f'attempt via {via}, connect pending')
-    before = {t for t in asyncio.all_tasks(loop) if t.get_name().startswith('connect-to-peer-')}
+    before = set(asyncio.all_tasks(loop))
     if via == 'api':
         task = asyncio.create_task(w.network.create_peer_connection('slow', 'P', ip='10.0.5.1', port=port))
     else:
@@ -1005,9 +1051,9 @@ async def _scn_disconnect_while_connecting(w: World, via: str):
                                                             obfuscated_port_amount=0, obfuscated_port=0))
         task = None
     await vloop.settle(loop)
-    if task is None:
-        new = [t for t in asyncio.all_tasks(loop) if t.get_name().startswith('connect-to-peer-') and t not in before]
-        task = new[0] if new else None
+    for c in w.known_peer_connections():
+        if c.port == port and task is None:
+            task = attempt_task(loop, before, c)
     for c in w.known_peer_connections():
         if c.port == port and task is not None:
             rec.att_fn[rec.idx(c)] = lambda: 'gone' if task.done() else 'running'
@@ -1679,8 +1725,17 @@ def run(chk: Check, args):
                 blind += sum(1 for i, k in enumerate(tr[0]['kind'], start=1)
                              if k == 'out' and last.get(i) == 'CONNECTING' and e['att'][i - 1] == 'unknown')
     chk.cov['binding_selftest']['connecting_with_unknown_attempt'] = blind
+    chk.cov['binding_selftest']['attempt_discovery_health'] = f"{DISCOVERY['found']}/{DISCOVERY['probes']}"
     if blind:
-        raise MachineryFailure(f'{blind} quiescent records have a CONNECTING outgoing connection whose attempt is unknown')
+        # The attempt of a connect-back is found structurally (new task whose coroutine stack references the
+        # connection).  If that mechanism cannot even see the attempts the driver started itself, the machinery is
+        # broken; otherwise the code under test is merely opaque here: those records are judged on what remains
+        # observable (RegistryOK skips the attempt half for them) and the run says so.
+        if DISCOVERY['probes'] and DISCOVERY['found'] < DISCOVERY['probes']:
+            raise MachineryFailure(f'{blind} quiescent records have a CONNECTING outgoing connection whose attempt is '
+                                   f'unknown and the structural discovery is unhealthy ({DISCOVERY})')
+        chk.notes.append(f'{blind} quiescent records have a CONNECTING outgoing connection whose attempt could not be '
+                         f'determined; for them only the reported-state half of RegistryExact was judged')
 
     # -- B: TLC judges the recorded executions ------------------------------------------------
     # strict reading (fidelity only): a fixed-stride sample and the scenarios; its search multiplies the silent steps
@@ -1736,8 +1791,9 @@ def run(chk: Check, args):
     chk.assumptions += [
         'asyncio.open_connection/start_server are replaced by harness.simnet links (real StreamReaders, scripted '
         'writers); kernel-specific orderings of real sockets (half-open TCP) are not produced',
-        'the attempt of a connection is the task the driver started (create_peer_connection), the connect-to-peer-N '
-        'task, or the accept callback task; in whole-client scenarios it is unknown and RegistryExact is not '
+        'the attempt of a connection is the task the driver started (create_peer_connection / connect_server), for a '
+        'connect-back the new task whose coroutine stack references the connection (no task or attribute names of '
+        'the code under test are used), or the accept callback task of harness.simnet; in whole-client scenarios it is unknown and RegistryExact is not '
         'evaluated for connections that are still CONNECTING',
         'listening connections are outside the property (peer and server connections only)',
         'a decodable-but-unexpected init message is produced with a harness-side PeerInitializationMessage subclass',
